@@ -315,6 +315,8 @@ class ValGen(jdfgen.Gen):
         and `-> D(..)` is added only to flows whose copy nobody can modify afterwards"""
         r = self.r
         for ci, c in enumerate(self.p.classes):
+            if getattr(c, "manual", False):       # classes written out completely by their template
+                continue
             for f in c.flows:
                 if f.mode == 'C':
                     continue
@@ -475,6 +477,102 @@ def _t_wbforms(g):
         g.connect((u, b2), (u, b2), [jdfgen.shift(0, d)], [jdfgen.shift(0, -d)], out_bounds=True)
 
 
+def _t_shrink(g):
+    """execution spaces with 3 or 4 parameters in which the upper bound of a MIDDLE parameter depends on the outer one,
+    shrinking (m = 0 .. N-1-(k-k0)) or growing (m = 0 .. k-k0) as it advances:
+        P(k, m, n[, q])  RW X <- D(i)              -> X A(k, m, n[, q])     CTL c -> c B(k)
+        B(k)             CTL c <- c P(k, all m, all n[, all q])             CTL d -> d A(k, all m, all n[, all q])
+        A(k, m, n[, q])  RW X <- X P(k, m, n[, q]) -> D(j)                  CTL d <- d B(k)
+    every P of a row is complete, its copy waiting in the repository, before the control barrier B(k) lets the A of the
+    row start: A fetches its input through the repository lookup while many producers of the class are alive, so
+    the generated keys (mixed radix over the recorded ranges of the parameters) must tell them apart."""
+    r = g.r
+    C_, L_, B_ = jdfgen.C, jdfgen.L, jdfgen.B
+    N, nn = r.range(2, 4), r.range(2, 3)
+    nq = r.pick([0, 0, 2])                         # a fourth parameter, sometimes
+    k0 = r.pick([0, 0, 1, -2, 3])
+    grow = r.chance(1, 4)
+    k0e = g.lo_expr(k0)
+    khi = jdfgen.simp(B_("add", k0e, g.count_expr(N)))
+    base = g.data_next
+    size = N * N * nn * max(1, nq)
+    g.data_next += 2 * size
+
+    def u(kl):                                     # canonical coordinate of k
+        return jdfgen.simp(B_("sub", kl, k0e))
+
+    def mhi(kl):
+        return u(kl) if grow else jdfgen.simp(B_("sub", C_(N - 1), u(kl)))
+
+    def locals_of(c):
+        c.locals.append(jdfgen.Local("k", 'R', k0e, khi, C_(1)))
+        c.locals.append(jdfgen.Local("m", 'R', C_(0), mhi(L_(0)), C_(1)))
+        c.locals.append(jdfgen.Local("n", 'R', C_(0), C_(nn - 1), C_(1)))
+        if nq:
+            c.locals.append(jdfgen.Local("q", 'R', C_(0), C_(nq - 1), C_(1)))
+        c.params = list(range(len(c.locals)))
+
+    def idx(off):
+        e = B_("add", B_("mul", B_("add", B_("mul", u(L_(0)), C_(N)), L_(1)), C_(nn)), L_(2))
+        if nq:
+            e = B_("add", B_("mul", e, C_(nq)), L_(3))
+        return ('M', [jdfgen.simp(B_("add", C_(base + off), e))])
+
+    def same_args():
+        return [('E', L_(i)) for i in range(3 + (1 if nq else 0))]
+
+    def all_args():
+        a = [('E', L_(0)), ('S', C_(0), mhi(L_(0)), C_(1)), ('S', C_(0), C_(nn - 1), C_(1))]
+        if nq:
+            a.append(('S', C_(0), C_(nq - 1), C_(1)))
+        return a
+    cls = []
+    for _ in range(3):
+        c = jdfgen.Cls(next(g.names))
+        c.manual = True
+        g.p.classes.append(c)
+        cls.append(len(g.p.classes) - 1)
+    pi, bi, ai = cls
+    P_, Bc, A_ = (g.p.classes[i] for i in cls)
+    locals_of(P_)
+    locals_of(A_)
+    Bc.locals.append(jdfgen.Local("k", 'R', k0e, khi, C_(1)))
+    Bc.params = [0]
+    P_.flows = [jdfgen.Flow("X", 'B', [jdfgen.Dep(True, None, idx(0)), jdfgen.Dep(False, None, ('T', ai, 0, same_args()))]),
+                jdfgen.Flow("Y", 'C', [jdfgen.Dep(False, None, ('T', bi, 0, [('E', L_(0))]))])]
+    Bc.flows = [jdfgen.Flow("Y", 'C', [jdfgen.Dep(True, None, ('T', pi, 1, all_args()))]),
+                jdfgen.Flow("Z", 'C', [jdfgen.Dep(False, None, ('T', ai, 1, all_args()))])]
+    A_.flows = [jdfgen.Flow("X", 'B', [jdfgen.Dep(True, None, ('T', pi, 0, same_args())), jdfgen.Dep(False, None, idx(size))]),
+                jdfgen.Flow("Z", 'C', [jdfgen.Dep(True, None, ('T', bi, 1, [('E', L_(0))]))])]
+    if r.chance(1, 2):
+        P_.prio = L_(1)
+    if r.chance(1, 3):
+        A_.count = True
+
+
+def space_shapes(p):
+    """classes with >= 3 parameters whose middle parameter has an upper bound shrinking / growing with an outer one"""
+    d = {"shrinking": 0, "growing": 0}
+    for c in p.classes:
+        if len(c.params) < 3:
+            continue
+        envs = jdfgen.enum(p.gvals, c.locals)
+        for pos in c.params[1:-1]:
+            l = c.locals[pos]
+            if l.kind != 'R':
+                continue
+            his = []
+            for env in envs:
+                h = jdfgen.ev(p.gvals, list(env), l.hi)
+                if not his or his[-1] != h:
+                    his.append(h)
+            if any(a > b for a, b in zip(his, his[1:])):
+                d["shrinking"] += 1
+            elif any(a < b for a, b in zip(his, his[1:])):
+                d["growing"] += 1
+    return d
+
+
 def writeback_forms(p):
     """how the final write-backs of a program are spelt: counts per form, and whether each form's guard is both
     true and false over the instances"""
@@ -510,8 +608,8 @@ def overlapping_flows(p):
     return n
 
 
-EXTRA_TEMPLATES = {"bcast_read": _t_bcast_read, "relay": _t_relay, "overlap": _t_overlap, "wbforms": _t_wbforms}
-VAL_TEMPLATES = ("wbforms", "overlap", "chain", "fan", "bcast_gather", "diamond", "split_merge", "pipeline2d", "tri", "mixed", "bcast_read", "relay")
+EXTRA_TEMPLATES = {"bcast_read": _t_bcast_read, "relay": _t_relay, "overlap": _t_overlap, "wbforms": _t_wbforms, "shrink": _t_shrink}
+VAL_TEMPLATES = ("shrink", "wbforms", "overlap", "chain", "fan", "bcast_gather", "diamond", "split_merge", "pipeline2d", "tri", "mixed", "bcast_read", "relay")
 
 
 def gen_value_program(rng, template=None, max_inst=100, tries=60):
